@@ -670,6 +670,7 @@ func famProbe(o *corr.Out, n int) {
 	famUpload(o, n/3+1)
 	famWaitingInvoke(o)
 	famCancelBeforeInvoke(o)
+	famUndecodable(o)
 	famPublishAfterRelease(o)
 	famQueuedUnary(o)
 	famOverlappingInvokes(o)
@@ -749,6 +750,7 @@ func famCancel(o *corr.Out, n int) {
 	famServerCancel(o)
 	famWaitingInvoke(o)
 	famCancelBeforeInvoke(o)
+	famUndecodable(o)
 	famPublishAfterRelease(o)
 	total := len(subsets) * 4
 	if n < total && !o.Thorough {
@@ -946,6 +948,52 @@ func famCancelBeforeInvoke(o *corr.Out) {
 			o.Oracle("C06:probe-completes", sc.request(), "an invoke whose request cannot be marshalled did not return: "+ob)
 		}
 		probe(o, sc, "C06:probe-completes", false)
+		finish(o, sc)
+	}
+}
+
+// famUndecodable: a message arrives intact but the application's encoding rejects it (the two sides
+// disagree on a type). The receive reports the error; after that the RPC, the connection and the next
+// RPC must behave as after any other failed call: a handler that gives up lets the next RPC in (C06),
+// and a later cancellation of the RPC's context still unblocks everything of that RPC (C04).
+func famUndecodable(o *corr.Out) {
+	for _, soft := range []bool{false, true} {
+		// (a) the handler cannot decode the request and returns the error
+		sc := &scenario{cfg: Config{Soft: soft}, class: "undecodable-request"}
+		ob := sc.do("inv!u1!1!u!1!7")
+		if contains(lastPending(ob), "u1") {
+			o.Oracle("C06:probe-completes", sc.request(), "an RPC whose handler could not decode the request did not end: "+ob)
+		}
+		probe(o, sc, "C06:probe-completes", true)
+		finish(o, sc)
+		// (b) the client cannot decode a response; later the RPC's context is cancelled with a receive pending
+		sc = &scenario{cfg: Config{Soft: soft}, class: "undecodable-response"}
+		sc.do("new!n1!1!s1:5.w!1")
+		sc.do("rcvf!r1!1")
+		sc.do("rcv!r2!1")
+		ob = sc.do("can!1")
+		if p := lastPending(ob); contains(p, "r1") || contains(p, "r2") {
+			o.Oracle("C04:cancel-unblocks", sc.request(), fmt.Sprintf("soft=%v a receive is still pending after the context was cancelled (an earlier receive failed to decode): %s | blocked: %s",
+				soft, ob, strings.Join(sc.w.LastObs().Census, " | ")))
+		} else {
+			o.OracleOK("C04:cancel-unblocks")
+		}
+		probe(o, sc, "C06:probe-completes", false)
+		finish(o, sc)
+		// (c) as (b), but what is pending at the cancellation is a send stalled in the transport
+		sc = &scenario{cfg: Config{Soft: soft}, class: "undecodable-response-stalled-send"}
+		sc.do("new!n1!1!s1:5.w!1")
+		sc.do("rcvf!r1!1")
+		sc.do("flow!0")
+		sc.do("snd!s1!1!0!70000")
+		ob = sc.do("can!1")
+		if p := lastPending(ob); contains(p, "s1") || contains(p, "r1") {
+			o.Oracle("C04:cancel-unblocks", sc.request(), fmt.Sprintf("soft=%v a send stalled in the transport is still pending after the context was cancelled (an earlier receive failed to decode): %s | blocked: %s",
+				soft, ob, strings.Join(sc.w.LastObs().Census, " | ")))
+		} else {
+			o.OracleOK("C04:cancel-unblocks")
+		}
+		sc.do("flow!1")
 		finish(o, sc)
 	}
 }
